@@ -52,7 +52,11 @@ def one_file(R, I, label, P, paths, pin_doc, slot, base, dec):
                     alts.append(z3.And(P.old_present, P.old_parses, V(P.root, P.old), MPresent(P.old, IDV(1)), z3.Not(MPresent(P.served, IDV(1)))))
                 R.obligation(f'{label}: MetaMissing only if the file is not listed (or the new snapshot dropped targets.json)', p.pc, z3.Or(alts), group=label + '/reject-justified')
             if 'MaxSizeExceeded' in p.cls:
-                R.obligation(f'{label}: MaxSizeExceeded only if more than the applicable bound was served', p.pc,
+                # byte counts: a sum of chunk lengths that wraps u64 is outside the property (2^64 bytes cannot be served)
+                nw = []; tot = BV64(0)
+                for e in p.events:
+                    if e[0] == 'chunk_len': nw.append(z3.BVAddNoOverflow(tot, e[1], False)); tot = tot + e[1]
+                R.obligation(f'{label}: MaxSizeExceeded only if more than the applicable bound was served', list(p.pc) + nw,
                              z3.If(MHasLen(pin_doc, sl), z3.UGT(sum_lens(p), MLen(pin_doc, sl)), z3.UGT(sum_lens(p), P.maxsz)), group=label + '/reject-justified')
     R.reach_any(f'{label}: trusted with digest+length pinned, consistent snapshots', [p.pc for p in paths if p.ok], z3.And(MHasHash(pin_doc, IDV(slot)), MHasLen(pin_doc, IDV(slot)), Cons(P.root)))
     R.reach_any(f'{label}: HashMismatch reachable', [p.pc for p in paths if 'HashMismatch' in p.cls])
@@ -84,7 +88,7 @@ def check(R, tier):
     R.fallback_kinds = {'meta'}
     I = R.interp('tough'); install_world(I)
     nch = 2 if tier == 'thorough' else 1
-    R.bounds.update({'chunks per file': f'0..{nch}', 'versions / lengths': 'any u64', 'delegation tree': 'depth <= 2, <= 2 roles per level'})
+    R.bounds.update({'chunk lengths': 'any u64 whose running sum does not wrap (a repository cannot serve 2^64 bytes)', 'chunks per file': f'0..{nch}', 'versions / lengths': 'any u64', 'delegation tree': 'depth <= 2, <= 2 roles per level'})
     R.assumptions += ['Sha(content) is a function of the sequence of accepted chunks (cryptographic hash trusted)', 'parse oracle per served file; V = C01 oracle',
                       'expiry clock disabled here (C04)']
     P = sn_params(nch); P['lkt_present'] = z3.BoolVal(False); P['safe'] = z3.BoolVal(False)
